@@ -5,8 +5,10 @@ package main
 import (
 	"context"
 	"encoding/json"
+	"fmt"
 	"math/rand"
 	"reflect"
+	"strings"
 	"sync"
 	"sync/atomic"
 
@@ -18,6 +20,48 @@ func outcomeJ(o Outcome) J {
 	j := o.toJSON()
 	delete(j, "e")
 	return j
+}
+
+// other texts for the supplied variables, of the same declared types: amounts moved, portions set to zero or one,
+// accounts swapped (also to world), strings changed
+func altVars(c *Case) map[string]string {
+	if len(c.RawVars) == 0 {
+		return nil
+	}
+	out := copyVars(c.RawVars)
+	changed := false
+	for i, d := range c.Decls {
+		dj := d.(J)
+		t, _ := dj["type"].(string)
+		name, _ := dj["name"].(string)
+		v, supplied := c.RawVars[name]
+		if !supplied {
+			continue
+		}
+		switch t {
+		case "number":
+			out[name] = fmt.Sprint(7 + i)
+		case "monetary":
+			if sp := strings.LastIndex(v, " "); sp > 0 {
+				out[name] = v[:sp] + " " + fmt.Sprint(11+i)
+			}
+		case "portion":
+			out[name] = []string{"0%", "1/1", "1/3"}[i%3]
+		case "account":
+			out[name] = []string{"world", "b", "c"}[i%3]
+		case "string":
+			out[name] = v + "_"
+		default:
+			continue
+		}
+		if out[name] != v {
+			changed = true
+		}
+	}
+	if !changed {
+		return nil
+	}
+	return out
 }
 
 // the case's variables with two of them (of different declared types) replaced by unreadable texts
@@ -264,6 +308,17 @@ func cmdConc(args []string) {
 			runParsed(bg, p, padded, fresh(), c.FlagOvd)
 			nruns++
 			line["paddedVarsUnchanged"] = reflect.DeepEqual(padded, orig)
+		}
+		// ... and the parsed script is a value: running it with OTHER variable texts in between changes nothing, and the
+		// run with the other texts equals the same run on a freshly parsed script
+		if alt := altVars(c); alt != nil {
+			pFresh := numscript.Parse(c.Text)
+			wantAlt := runParsed(bg, pFresh, copyVars(alt), fresh(), c.FlagOvd)
+			first := runParsed(bg, p, copyVars(c.RawVars), fresh(), c.FlagOvd)
+			gotAlt := runParsed(bg, p, copyVars(alt), fresh(), c.FlagOvd)
+			again := runParsed(bg, p, copyVars(c.RawVars), fresh(), c.FlagOvd)
+			nruns += 4
+			line["reuse"] = J{"alt": alt, "wantAlt": outcomeJ(wantAlt), "gotAlt": outcomeJ(gotAlt), "first": outcomeJ(first), "again": outcomeJ(again)}
 		}
 		// ... and with two supplied variables unreadable at once (which one is reported must not depend on the
 		// iteration order of the caller's map)
